@@ -4,6 +4,7 @@ mirror): implementation vs. Spec (property oracle) and vs. the Lean model of the
 (correspondence).
 """
 import json
+import os
 
 from harness import core
 from harness.gen import values as V
@@ -163,7 +164,71 @@ def run_c19(tier):
     return chk.finish()
 
 
+def cpp_optimised_unity(chk):
+    """the generated codec compiled INTO the caller's translation unit at -O2 / -O3 (a unity-style build): float and double members
+    decoded as little / big and encoded as native - strict-aliasing violations in the headers only show here (defect D113)"""
+    import shutil
+    import subprocess
+    import tempfile
+    from harness.checks.cppcorpus import py_impl as _py
+    d = tempfile.mkdtemp(prefix='prophy-verif-')
+    try:
+        with open(os.path.join(d, 'fl.prophy'), 'w') as f:
+            f.write('struct S4 { i8 f0; i8 f1; double f2; };\nstruct S5 { u32 a; float f; };\nstruct S6 { float a[3]; u32 n; double d<@n>; };\n')
+        _py.run_prophyc(['--cpp_full_out', d, os.path.join(d, 'fl.prophy')])
+        with open(os.path.join(d, 'main.cpp'), 'w') as f:
+            f.write(r'''
+#include "fl.ppf.cpp"
+#include <stdio.h>
+using namespace prophy::generated;
+template <class T> static void show(const char* name, const std::vector<uint8_t>& le, const std::vector<uint8_t>& be)
+{
+    T a, b;
+    bool oka = a.template decode<prophy::little>(le.data(), le.size());
+    bool okb = b.template decode<prophy::big>(be.data(), be.size());
+    std::vector<uint8_t> out[4] = { a.template encode<prophy::little>(), a.encode(), b.template encode<prophy::little>(), a.template encode<prophy::big>() };
+    printf("%s %d %d", name, int(oka), int(okb));
+    for (int k = 0; k < 4; ++k) { printf(" "); for (size_t i = 0; i < out[k].size(); ++i) printf("%02x", out[k][i]); }
+    printf("\n");
+}
+static std::vector<uint8_t> hex(const char* s) { std::vector<uint8_t> v; for (; s[0] && s[1]; s += 2) { unsigned x; sscanf(s, "%2x", &x); v.push_back(uint8_t(x)); } return v; }
+int main()
+{
+    show<S4>("S4", hex("0102000000000000000000000000f83f"), hex("01020000000000003ff8000000000000"));
+    show<S5>("S5", hex("0700000000002040"), hex("0000000740200000"));
+    show<S6>("S6", hex("0000803f000000400000404002000000000000000000f83f000000000000f0bf"),
+             hex("3f8000004000000040400000000000023ff8000000000000bff0000000000000"));
+}
+''')
+        want = {'S4': ('0102000000000000000000000000f83f', '01020000000000003ff8000000000000'), 'S5': ('0700000000002040', '0000000740200000'),
+                'S6': ('0000803f000000400000404002000000000000000000f83f000000000000f0bf',
+                       '3f8000004000000040400000000000023ff8000000000000bff0000000000000')}
+        for opt in ('-O2', '-O3'):
+            exe = os.path.join(d, 'unity' + opt)
+            p = subprocess.run(['g++', '-std=c++11', opt, '-I' + os.path.join(_py.REPO, 'prophy_cpp', 'include'), '-I' + d, os.path.join(d, 'main.cpp'), '-o', exe],
+                               stdout=subprocess.PIPE, stderr=subprocess.STDOUT, timeout=600)
+            if p.returncode != 0:
+                raise core.Infra('unity build failed: ' + p.stdout.decode(errors='replace')[-800:])
+            lines = subprocess.run([exe], stdout=subprocess.PIPE, timeout=60).stdout.decode().split('\n')
+            for line in lines:
+                if not line.strip():
+                    continue
+                name, oka, okb, le, nat, le_from_big, be = line.split()
+                casej = {'schema': 'struct S4 { i8 f0; i8 f1; double f2; }; struct S5 { u32 a; float f; }; struct S6 { float a[3]; u32 n; double d<@n>; };',
+                         'type': name, 'build': 'g++ %s, generated .ppf.cpp included in the caller (unity build)' % opt, 'codec': 'C++ full'}
+                chk.count(('unity', opt, name), True)
+                chk.bump('cpp:unity' + opt)
+                if (oka, okb) != ('1', '1'):
+                    chk.property_violation(casej, {'what': 'canonical bytes were not decoded', 'decode<little>': oka, 'decode<big>': okb})
+                elif (le, nat, le_from_big, be) != (want[name][0], want[name][0], want[name][0], want[name][1]):
+                    chk.property_violation(casej, {'what': "encodings of one decoded value differ: encode<little>(), encode() ('native'), encode<little>() of the big-endian "
+                                                           "decoded object, encode<big>()", 'got': [le, nat, le_from_big, be], 'want_little': want[name][0], 'want_big': want[name][1]})
+    finally:
+        shutil.rmtree(d, ignore_errors=True)
+
+
 def cpp_half_c19(chk):
+    cpp_optimised_unity(chk)
     """C++ full codec's vector encoders: encode<little>() vs encode<big>() vs encode() on the same object"""
     from harness.checks.cppcorpus import CppCorpus
     cc = CppCorpus(chk, chk.scale(2, 20))
